@@ -385,10 +385,14 @@ func (l *commitLog) EarliestOffsetAfterTimestamp(timestamp int64) (int64, error)
 	if idx < len(l.segments) {
 		seg = l.segments[idx]
 		entry, err := seg.findEntryByTimestamp(timestamp)
-		if err != nil {
+		if err == nil {
+			return entry.Offset, nil
+		}
+		// The next segment may be the empty newest segment: then, too, the
+		// timestamp is beyond the end of the log.
+		if err != ErrEntryNotFound && err != io.EOF {
 			return 0, errors.Wrap(err, "failed to find log entry for timestamp")
 		}
-		return entry.Offset, nil
 	}
 	return l.segments[len(l.segments)-1].NextOffset(), nil
 }
